@@ -53,6 +53,12 @@ var c04Sufs = []string{``, `[0]`, `.a`, `[0]?`, `.a?`, `[1:]`, `[]`, `[]?`, ` | 
 
 var c04LitCtxs = []string{`%`, `[%]`, `{a: %}`, `-(%)`, `[-%]`, `.[%]?`, `(%) + .`, `[%, %]`, `if % then 1 else 2 end`, `{(%|tojson): .}`, `(%) as $c | [$c, .]`, `. as $c | %`, `[.[]? | %]`, `(% | .) , 3`, `try (%) catch "c"`, `path(%)?`}
 
+// conditionals: condition x then-branch x tail (no else, else, elif chains) x context
+var c04IfConds = []string{`.`, `. > 3`, `.a?`, `type == "string"`, `(., 1)`, `empty`}
+var c04IfThens = []string{`.`, `1`, `empty`, `.a?`, `$x`, `[.]`}
+var c04IfTails = []string{`end`, `else . end`, `else 2 end`, `elif . then . end`, `elif . > 3 then . end`, `elif . then 1 else . end`, `elif .a? then . elif . then . end`, `else empty end`}
+var c04IfCtxs = []string{`%`, `{a: (%)}`, `[%]`, `% | [.]`, `(%) as $z | [$z, .]`, `[(%)?, 7]`, `if (%) then "t" else "f" end`, `(%) // "alt"`}
+
 func c04Fill(ctx, body string) string { return strings.ReplaceAll(ctx, "%", body) }
 
 func c04Pick(xs []string, quick int) string {
@@ -83,6 +89,9 @@ func c04GenProg(family int) string {
 			h += `?`
 		}
 		return c04Fill(f, h+t)
+	case 4:
+		c, t, tl, cx := c04Pick(c04IfConds, 4), c04Pick(c04IfThens, 5), c04Pick(c04IfTails, 6), c04Pick(c04IfCtxs, 6)
+		return `1 as $x | ` + c04Fill(cx, `if `+c+` then `+t+` `+tl)
 	default:
 		l, s, c := c04Pick(c04Lits, 12), c04Pick(c04Sufs, 8), c04Pick(c04LitCtxs, 8)
 		return c04Fill(c, l+s)
@@ -101,3 +110,4 @@ func H_C04_gen_join()   { c04Gen(0) }
 func H_C04_gen_rec()    { c04Gen(1) }
 func H_C04_gen_assign() { c04Gen(2) }
 func H_C04_gen_lit()    { c04Gen(3) }
+func H_C04_gen_if()     { c04Gen(4) }
